@@ -281,6 +281,9 @@ func cmdRun(args []string) int {
 			for _, u := range scan.GoUncovered {
 				fmt.Printf("INCONCLUSIVE property=C07 harness=map-range-scan reason=goroutines started in %s: completion order is a source of nondeterminism that no harness covers and no recorded argument discharges\n", u)
 			}
+			for _, u := range scan.RunDependent {
+				fmt.Printf("INCONCLUSIVE property=C07 harness=map-range-scan reason=run-dependent value source %s: its result differs from one process to the next; no harness compares two processes\n", u)
+			}
 			for _, u := range scan.PointerPrint {
 				fmt.Printf("INCONCLUSIVE property=C07 harness=map-range-scan reason=%%p verb (pointer value printed) at %s\n", u)
 			}
